@@ -50,6 +50,9 @@ func checkC09(r *harness.Run) harness.Coverage {
 	uniArrays := arraysOver(univ.Js(`"é"`, `"z"`, `"日"`, `"😀"`, `"e"`), 2)
 	anys := univ.Js(`null`, `true`, `false`, `0`, `1`, `-0.5`, `"a"`, `""`, `"é\"\\"`, `[]`, `[1]`, `[[1]]`, `[null]`, `{}`, `{"a":1}`, `{"b":[1,{"c":null}]}`, `1e21`, `1e-7`, `[1.5,"x"]`)
 	hetero := arraysOver(univ.Js(`null`, `1`, `"a"`, `[1]`, `{"a":1}`, `true`), 3)
+	// objects of equal size with different key sets, null under the extra key; nested
+	objElems := univ.Js(`{"a":null}`, `{"b":null}`, `{"a":null,"b":1}`, `{"b":1,"c":2}`, `{"a":1,"b":null}`, `{"a":{"a":null}}`, `{"a":{"b":null}}`, `[{"a":null}]`, `[{"b":null}]`, `{}`, `null`)
+	objHay := arraysOver(objElems, 2)
 	var objArrays []interface{}
 	for _, keys := range [][]interface{}{univ.Js(`1`, `2`, `3`), univ.Js(`"a"`, `"b"`, `"ab"`), univ.Js(`"1"`, `"2"`, `"10"`)} {
 		for n := 0; n <= maxLen; n++ {
@@ -86,6 +89,7 @@ func checkC09(r *harness.Run) harness.Coverage {
 		{[]string{"contains(a, b)", "starts_with(a, b)", "ends_with(a, b)"}, [][]interface{}{strs, strs}},
 		{[]string{"contains(a, b)"}, [][]interface{}{strs[:4], anys}},
 		{[]string{"contains(a, b)"}, [][]interface{}{hetero, anys}},
+		{[]string{"contains(a, b)", "a[?@ == b]", "a[0] == b"}, [][]interface{}{objHay, objElems}},
 		{[]string{"length(a)", "reverse(a)", "to_string(a)", "to_number(a)", "to_array(a)", "type(a)"}, [][]interface{}{strs}},
 		{[]string{"to_array(a)", "to_string(a)", "to_number(a)", "type(a)", "not_null(a)", "not_null(a, `1`)", "to_string(to_string(a))", "to_array(to_array(a))", "type(to_string(a))"}, [][]interface{}{anys}},
 		{[]string{"not_null(a, b)", "not_null(a, b, c)", "not_null(c, b, a)"}, [][]interface{}{anys[:8], anys[:8], anys[:8]}},
